@@ -877,7 +877,9 @@ def resolve_types(names):
     out = []
     for n in names:
         mod, _, q = n.rpartition(".")
-        if mod == "builtins":
+        if n == "builtins.NoneType":
+            out.append(type(None))
+        elif mod == "builtins":
             out.append(getattr(builtins, q))
         else:
             m = __import__(mod, fromlist=[q])
@@ -1402,7 +1404,32 @@ def _oracle_c14(case, obj, ld, tmp, res):
     surv = survivors(obj, set(sn_s) | set(sn_l), types)
     # graphs with objects inside containers are outside C14's quantifier: attribute names only.  Load-time TYPE
     # skipping is not part of the property text (the code does it by exact type): correspondence only.
-    if not case.get("skip_load_types"):
+    if case.get("lookalike"):
+        # what the type list meets, per attribute at every level: value kind x (removed: instance of a listed type at save
+        # time | kept although a load-time-only type lists its kind | kept)
+        st = {}
+        lt = tuple(resolve_types(case.get("skip_load_types", [])))
+
+        def walk_la(o, bo, depth):
+            from quantem.core.io.serialize import AutoSerialize
+            bv = ovars(bo) if bo is not None else {}
+            for k, v in ovars(o).items():
+                kind = type(v).__name__ + ("-0d" if isinstance(v, np.ndarray) and v.ndim == 0 else "")
+                removed = bool(types) and isinstance(v, tuple(types))
+                # the value is NOT an instance of a listed type, the form it takes in the file / after a plain load IS
+                twin_s = (not removed) and bool(types) and k in bv and isinstance(bv[k], tuple(types))
+                twin_l = (not removed) and bool(lt) and (isinstance(v, lt) or (k in bv and isinstance(bv[k], lt)))
+                how = "removed-at-save" if removed else "kept:stored-form-is-instance-of-a-save-time-type" if twin_s else \
+                    "kept:load-time-type-lists-its-kind" if twin_l else "kept"
+                for key in ("%s/%s" % (how, kind), "%s/depth%d" % (how.split(":")[0], depth)):
+                    st[key] = st.get(key, 0) + 1
+                if isinstance(v, AutoSerialize) and not is_hybrid(v) and not removed:
+                    walk_la(v, bv.get(k), depth + 1)
+        walk_la(obj, base, 0)
+        res["la_stats"] = st
+    # a load-time type list that only REPEATS the recorded save-time list is covered by the text ("recorded lists are
+    # honoured by later loads without being repeated": repeating them changes nothing)
+    if not case.get("skip_load_types") or (case.get("load_types_repeat_saved") and set(case["skip_load_types"]) <= set(st_s)):
         for k, m in pruned_diff(base, ld, surv, values=not case.get("container_objects")):
             res["diffs"].append((k, "save skip=%s+%s, load skip=%s: %s" % (sn_s, st_s, sn_l, m)))
     names = sorted(set(sn_s) | set(sn_l))
